@@ -79,8 +79,8 @@ def replay(group, cexs, workdir):
     for f in sorted(os.listdir(hdir)):
         if not f.endswith(".go"):
             continue
-        if f == "zz_verif_rt.go":
-            continue
+        if f == "zz_verif_rt.go" or f.endswith("_symonly.go"):
+            continue  # symbolic-build-only files (their native counterparts are *_native.go)
         repl[os.path.join(pkgdir, f if not f.endswith("_native.go") else f.replace("_native.go", "_nat.go"))] = os.path.join(hdir, f)
     for e in group.get("extra_overlays") or []:
         d = os.path.join(VERIF, e["dir"])
